@@ -16,6 +16,12 @@ inherit with the newest layer of the target; for every key the first node in tha
 Reachable cycle / missing target / no `class` anywhere => ConfigurationError expected.  Every section
 of a case is collapsed as a root (collapse_named_section) and compared: config dict, type callable, default.
 
+Histories (task family "hist"): one live ConfigManager is built from the first k sources, a subset of the
+sections is collapsed, the next source is added with add_config_source(), sections are collapsed again, ...;
+every collapse is compared with the reference computed over the sources present *at that moment* (a later
+source overrides earlier ones also when it arrives after a collapse).  Buckets `late-source:stale-collapse`
+(result still the one for the earlier source set) and `late-source:add-raised`.
+
 Diamonds (a name reachable twice without being its own ancestor) are outside the statement's quantifier
 ("tree-shaped and cyclic"): pkgcore reports them as recursive; the check accepts either outcome there.
 """
@@ -41,7 +47,9 @@ LEVEL_NOTE = "Trusted: the reference resolver in this module. Search, not proof.
 RULE = (
     "one hypothesis-drawn integer seeds the graph generator; one evaluation = one (case, root section); non-trivial = "
     "the root's resolution visits >= 3 nodes and some key's value comes from an inherited node although a farther node "
-    "defines it too (shadowing), or the graph has a reachable cycle/missing target; distinct = canonical JSON of (sources, root)"
+    "defines it too (shadowing), or the graph has a reachable cycle/missing target, or (histories: construct with k "
+    "sources, collapse, add_config_source, collapse again) a re-collapse whose expected result changed through the late "
+    "source; distinct = canonical JSON of (sources present, root, history, step)"
 )
 ASSUMPTIONS = [
     "later config sources override earlier ones for the same section name (statement)",
@@ -215,7 +223,7 @@ class Env:
         _decorate()
         self.basics, self.central, self.errors = basics, central, errors
 
-    def manager(self, case):
+    def build_sources(self, case):
         b = self.basics
         srcs = []
         for src in case["sources"]:
@@ -239,6 +247,10 @@ class Env:
                             conv[k] = v
                     d[name] = b.ConfigSectionFromStringDict(conv)
             srcs.append(d)
+        return srcs
+
+    def manager(self, case):
+        srcs = self.build_sources(case)
         if case["add_later"] and len(srcs) > 1:
             m = self.central.ConfigManager(srcs[:1])
             for s in srcs[1:]:
@@ -256,6 +268,7 @@ def _chain(exc):
 
 
 def check(ctx, env, case, record=True, only_root=None):
+    """all sources known up front (or added before the first collapse): every section collapsed as a root"""
     sources = case["sources"]
     names = sorted({n for s in sources for n in s})
     mgr = core.guarded(ctx, case, lambda: env.manager(case))
@@ -264,63 +277,167 @@ def check(ctx, env, case, record=True, only_root=None):
     for root in names:
         if only_root is not None and root != only_root:
             continue
-        newest = [i for i in range(len(sources) - 1, -1, -1) if root in sources[i]][0]
-        if sources[newest][root].get("inherit-only"):
+        check_root(ctx, env, mgr, sources, root, {"root": root, **case}, case["style"], record)
+
+
+def gen_history(seed):
+    """case + a history on one live manager: construct with the first k sources, then collapse a subset of the
+    sections / add the next source, ..., finally collapse everything"""
+    case = gen_case(seed)
+    rnd = random.Random(seed ^ 0x5DEECE66D)
+    nsrc = len(case["sources"])
+    names = sorted({n for s in case["sources"] for n in s})
+    k = rnd.randint(1, max(1, nsrc - 1)) if nsrc > 1 else 1
+    hist = []
+    for i in range(k, nsrc + 1):
+        roots = [n for n in names if rnd.random() < 0.6]
+        if i == nsrc:
+            roots = list(names)
+        rnd.shuffle(roots)
+        hist.append(["collapse", roots])
+        if i < nsrc:
+            hist.append(["add"])
+    case.pop("add_later", None)
+    case["initial"] = k
+    case["history"] = hist
+    return case
+
+
+def history_strategy():
+    return st.integers(0, 2**48).map(gen_history)
+
+
+def check_history(ctx, env, case, record=True):
+    """every collapse is compared with the reference computed over the sources present at that moment"""
+    allsrc = case["sources"]
+    built = core.guarded(ctx, case, lambda: env.build_sources(case))
+    if core.crashed(built):
+        return
+    present = case["initial"]
+    mgr = core.guarded(ctx, case, lambda: env.central.ConfigManager(built[:present]))
+    if core.crashed(mgr):
+        return
+    collapsed_with = {}  # root -> number of sources present when it was last collapsed
+    for step, op in enumerate(case["history"]):
+        if op[0] == "add":
+            if present >= len(allsrc):
+                continue
+            try:
+                r = core.guarded(ctx, case, lambda: mgr.add_config_source(built[present]), expected=(env.errors.ConfigurationError,))
+            except env.errors.ConfigurationError as e:
+                ctx.violation("late-source:add-raised", case, f"step {step}: add_config_source(source {present}) raised {_chain(e)}")
+                return
+            if core.crashed(r):
+                return
+            present += 1
             continue
-        ref = resolve(sources, root)
-        rcase = {"root": root, **case}
-        classes = ["style_" + case["style"], "nsrc_%d" % len(sources)]
-        if ref["diamond"]:
-            classes.append("diamond")
-        if ref["error"]:
-            classes.append("expect_" + ref["error"])
-        onames = [n for n, _ in ref["order"]]
-        if len(set(onames)) < len(onames):
-            classes.append("self_inherit_followed")
-        if ref["shadowed"]:
-            classes.append("shadowing")
-        if len(ref["order"]) >= 4:
-            classes.append("deep")
-        # BFS vs DFS distinguishing: does a depth-first order pick a different value for some key?
-        if not ref["error"] and not ref["diamond"] and _dfs_values(sources, root) != ref["values"]:
-            classes.append("bfs_differs_from_dfs")
-        nontrivial = (len(ref["order"]) >= 3 and ref["shadowed"]) or ref["error"] in ("cycle", "missing", "self-missing")
-        if record:
-            ctx.case(rcase, nontrivial=bool(nontrivial and not ref["diamond"]), classes=classes,
-                     key=core.jdump([sources, root, case["style"]]))
-        try:
-            got = core.guarded(ctx, rcase, lambda: mgr.collapse_named_section(root), expected=(env.errors.ConfigurationError,))
-            err = None
-        except env.errors.ConfigurationError as e:
-            got, err = None, e
-        if core.crashed(got):
-            continue
-        if ref["diamond"]:
-            continue  # outside the quantified domain; only crashes are reported
-        if ref["error"]:
-            if err is None:
-                ctx.violation(f"no-error:{ref['error']}", rcase, f"{root}: expected ConfigurationError ({ref['error']}), got config {dict(got.config)}")
-            else:
-                msg = _chain(err)
-                want = {"cycle": "recursive", "missing": "cannot be found", "self-missing": "cannot be found", "no-class": "no class"}[ref["error"]]
-                if want not in msg:
-                    ctx.violation(f"wrong-error:{ref['error']}", rcase, f"{root}: expected a '{want}' error, got: {msg}")
-            continue
-        if err is not None:
-            ctx.violation("unexpected-error:" + _errkind(err), rcase, f"{root}: {_chain(err)}; expected {ref['values']}")
-            continue
-        exp = dict(ref["values"])
-        kls = exp.pop("class")
-        dflt = bool(exp.pop("default", False))
-        gotc = {k: (list(v) if isinstance(v, (list, tuple)) else v) for k, v in got.config.items()}
-        if gotc != exp:
-            bad = sorted(k for k in set(gotc) | set(exp) if gotc.get(k, None) != exp.get(k, None))
-            how = _explain(sources, root, ref, gotc, bad)
-            ctx.violation(f"value:{how}", rcase, f"{root}: keys {bad}: got {gotc} expected {exp} (order {ref['order']})")
-        if got.type.callable.__name__ != kls:
-            ctx.violation("class:not-nearest", rcase, f"{root}: class {got.type.callable.__name__} expected {kls}")
-        if bool(got.default) != dflt:
-            ctx.violation("default:not-nearest", rcase, f"{root}: default {got.default} expected {dflt}")
+        sources = allsrc[:present]
+        for root in op[1]:
+            if not any(root in s_ for s_ in sources):
+                continue  # not defined yet
+            extra = ["history"]
+            prev = collapsed_with.get(root)
+            if prev is not None and prev < present:
+                extra.append("recollapse_after_late_source")
+                before = resolve(allsrc[:prev], root)
+                onames = {n for n, _ in before["order"]}
+                added = set().union(*[set(s_) for s_ in allsrc[prev:present]])
+                if (onames - {root}) & added:
+                    extra.append("collapse_after_late_source_overriding_inherited")
+                if root in added:
+                    extra.append("collapse_after_late_source_overriding_self")
+                now = resolve(sources, root)
+                if _observable(now) != _observable(before):
+                    extra.append("late_source_changes_result")
+            rcase = {"root": root, "step": step, **case}
+            check_root(ctx, env, mgr, sources, root, rcase, case["style"], record, extra,
+                       prev_sources=allsrc[:prev] if prev is not None and prev < present else None)
+            collapsed_with[root] = present
+
+
+def _observable(ref):
+    if ref["error"] or ref["diamond"]:
+        return ("error", ref["error"], ref["diamond"])
+    v = dict(ref["values"])
+    return (v.pop("class"), bool(v.pop("default", False)), sorted(v.items()))
+
+
+def check_root(ctx, env, mgr, sources, root, rcase, style, record=True, extra=(), prev_sources=None):
+    newest = [i for i in range(len(sources) - 1, -1, -1) if root in sources[i]][0]
+    if sources[newest][root].get("inherit-only"):
+        return
+    ref = resolve(sources, root)
+    classes = ["style_" + style, "nsrc_%d" % len(sources)] + list(extra)
+    if ref["diamond"]:
+        classes.append("diamond")
+    if ref["error"]:
+        classes.append("expect_" + ref["error"])
+    onames = [n for n, _ in ref["order"]]
+    if len(set(onames)) < len(onames):
+        classes.append("self_inherit_followed")
+    if ref["shadowed"]:
+        classes.append("shadowing")
+    if len(ref["order"]) >= 4:
+        classes.append("deep")
+    # BFS vs DFS distinguishing: does a depth-first order pick a different value for some key?
+    if not ref["error"] and not ref["diamond"] and _dfs_values(sources, root) != ref["values"]:
+        classes.append("bfs_differs_from_dfs")
+    nontrivial = (len(ref["order"]) >= 3 and ref["shadowed"]) or ref["error"] in ("cycle", "missing", "self-missing")
+    if "late_source_changes_result" in extra:
+        nontrivial = True
+    if record:
+        ctx.case(rcase, nontrivial=bool(nontrivial and not ref["diamond"]), classes=classes,
+                 key=core.jdump([sources, root, style, rcase.get("history"), rcase.get("step")]))
+    try:
+        got = core.guarded(ctx, rcase, lambda: mgr.collapse_named_section(root), expected=(env.errors.ConfigurationError,))
+        err = None
+    except env.errors.ConfigurationError as e:
+        got, err = None, e
+    if core.crashed(got):
+        return
+    if ref["diamond"]:
+        return  # outside the quantified domain; only crashes are reported
+    stale = None
+    if prev_sources is not None:
+        stale = resolve(prev_sources, root)
+    if ref["error"]:
+        if err is None:
+            b = f"no-error:{ref['error']}"
+            if stale is not None and not stale["error"]:
+                b = "late-source:stale-collapse"
+            ctx.violation(b, rcase, f"{root}: expected ConfigurationError ({ref['error']}), got config {dict(got.config)}")
+        else:
+            msg = _chain(err)
+            want = {"cycle": "recursive", "missing": "cannot be found", "self-missing": "cannot be found", "no-class": "no class"}[ref["error"]]
+            if want not in msg:
+                ctx.violation(f"wrong-error:{ref['error']}", rcase, f"{root}: expected a '{want}' error, got: {msg}")
+        return
+    if err is not None:
+        ctx.violation("unexpected-error:" + _errkind(err), rcase, f"{root}: {_chain(err)}; expected {ref['values']}")
+        return
+    exp = dict(ref["values"])
+    kls = exp.pop("class")
+    dflt = bool(exp.pop("default", False))
+    gotc = {k: (list(v) if isinstance(v, (list, tuple)) else v) for k, v in got.config.items()}
+    if stale is not None and not stale["error"]:
+        sv = dict(stale["values"])
+        skls = sv.pop("class")
+        sd = bool(sv.pop("default", False))
+        if (sv, skls, sd) != (exp, kls, dflt) and (gotc, got.type.callable.__name__, bool(got.default)) == (sv, skls, sd):
+            ctx.violation(
+                "late-source:stale-collapse", rcase,
+                f"{root}: collapse after add_config_source still returns the result for the earlier sources: "
+                f"got {gotc}/{skls} expected {exp}/{kls}",
+            )
+            return
+    if gotc != exp:
+        bad = sorted(k for k in set(gotc) | set(exp) if gotc.get(k, None) != exp.get(k, None))
+        how = _explain(sources, root, ref, gotc, bad)
+        ctx.violation(f"value:{how}", rcase, f"{root}: keys {bad}: got {gotc} expected {exp} (order {ref['order']})")
+    if got.type.callable.__name__ != kls:
+        ctx.violation("class:not-nearest", rcase, f"{root}: class {got.type.callable.__name__} expected {kls}")
+    if bool(got.default) != dflt:
+        ctx.violation("default:not-nearest", rcase, f"{root}: default {got.default} expected {dflt}")
 
 
 def _errkind(err):
@@ -372,28 +489,38 @@ def _explain(sources, root, ref, gotc, bad):
 
 
 def plan(tier, seed):
-    if tier == "quick":
-        return [{"task": "gen", "examples": 500} for _ in range(16)]
-    return [{"task": "gen", "examples": 15000} for _ in range(16)]
+    n = 350 if tier == "quick" else 9000
+    tasks = []
+    for _ in range(8):  # alternate so that both families get early pool slots
+        tasks.append({"task": "gen", "examples": n})
+        tasks.append({"task": "hist", "examples": n})
+    return tasks
 
 
 def run_task(ctx, task, **kw):
-    if task != "gen":
+    if task not in ("gen", "hist"):
         raise core.HarnessError(f"unknown task {task}")
     env = Env()
+    strat = case_strategy() if task == "gen" else history_strategy()
+    fn = (lambda c: check(ctx, env, c)) if task == "gen" else (lambda c: check_history(ctx, env, c))
     chunk = 100 if ctx.tier == "quick" else 1000
     # the first chunk always runs (a slow start on a loaded machine must not make the run vacuous);
     # the wall-clock guard applies to everything after it
     deadline, ctx.deadline = ctx.deadline, None
-    done = core.hyp_run(ctx, case_strategy(), lambda c: check(ctx, env, c), min(chunk, kw["examples"]), chunk=chunk, seed_salt=7)
+    done = core.hyp_run(ctx, strat, fn, min(chunk, kw["examples"]), chunk=chunk, seed_salt=7)
     ctx.deadline = deadline
-    core.hyp_run(ctx, case_strategy(), lambda c: check(ctx, env, c), kw["examples"] - done, chunk=chunk)
+    core.hyp_run(ctx, strat, fn, kw["examples"] - done, chunk=chunk)
 
 
 def replay(ctx, case):
     case = dict(case)
     root = case.pop("root", None)
-    check(ctx, Env(), case, only_root=root)
+    case.pop("step", None)
+    if "history" in case:
+        check_history(ctx, Env(), case)
+    else:
+        case.setdefault("add_later", False)
+        check(ctx, Env(), case, only_root=root)
 
 
 def shrink_case(ctx, bucket, case):
@@ -404,10 +531,13 @@ def shrink_case(ctx, bucket, case):
 
     def hits(c):
         sub = core.Ctx(ID, ctx.tier, ctx.seed)
-        cc = {k: v for k, v in c.items() if k != "root"}
+        cc = {k: v for k, v in c.items() if k not in ("root", "step")}
         if not any(root in s for s in cc["sources"]):
             return False
-        check(sub, env, cc, record=False, only_root=root)
+        if "history" in cc:
+            check_history(sub, env, cc, record=False)
+        else:
+            check(sub, env, cc, record=False, only_root=root)
         return bucket in sub.violations
 
     cur = copy.deepcopy(case)
@@ -416,6 +546,17 @@ def shrink_case(ctx, bucket, case):
     changed = True
     while changed:
         changed = False
+        for hi, op in enumerate(cur.get("history", [])):
+            if op[0] != "collapse":
+                continue
+            j = 0
+            while j < len(cur["history"][hi][1]):
+                c = copy.deepcopy(cur)
+                del c["history"][hi][1][j]
+                if hits(c):
+                    cur, changed = c, True
+                else:
+                    j += 1
         for si in range(len(cur["sources"])):
             for name in list(cur["sources"][si]):
                 c = copy.deepcopy(cur)
